@@ -301,7 +301,8 @@ Definition check_handle (s : store) (t : positive) : res (positive * Z) :=
   | None => Err ValueError
   end.
 
-(* splice(tokens, ref, del_end) *)
+(* splice(tokens, ref, del_end); a del_end that comes before ref - also directly before it, where end = start -
+   is refused here:  if (end_handle.block.index, end_handle.index) < start: raise ValueError *)
 Definition splice (s : store) (tokens : list positive) (ref del_end : option positive)
   : store * res unit :=
   let st := match ref with
@@ -316,7 +317,9 @@ Definition splice (s : store) (tokens : list positive) (ref del_end : option pos
     let en := match del_end with
               | None => Ok st
               | Some d => match check_handle s d with
-                          | Ok (hb, hi) => Ok (b_index (bget (s_heap s) hb), hi + 1)
+                          | Ok (hb, hi) =>
+                            if pair_lt (b_index (bget (s_heap s) hb), hi) st then Err ValueError
+                            else Ok (b_index (bget (s_heap s) hb), hi + 1)
                           | Err e => Err e end
               end in
     match en with
